@@ -4,6 +4,9 @@ R11.1  sort-key coverage: everything equality compares is read by _get_key (nece
 R11.2  key comparability: distinct integer priorities / equal grammars.
 R11.3  shape closure: the Product branch flattens *after* canonicalising its factors; the Fraction branch's
        equality/One shortcuts act on canonical operands; Product.safe sorts.
+       quotient closure: the Fraction branch's result is again a fixed point of its own shortcuts -- either the quotient is re-examined
+       (x/1, a/a) before it is returned, or every `__truediv__` builds only fractions whose denominator cannot be One() and whose two
+       parts are known to differ (dividing by a fraction multiplies out: a / (1/c) is built as Fraction(a*c, 1)).
 R11.4  determinism: no hash-ordered iteration reaches a key, an ordered field, or printed text on the
        canonicalisation path.
 R11.5  per-distribution ordering: children stay children, parents stay parents, both sorted by one key.
@@ -39,11 +42,12 @@ def run(model: Model, rep: Report, tier: str) -> None:
         "conditions for a normal form; full confluence of the rewriting is not decided."
     )
     rep.trusted_base = ["Python's sorted is stable and total on tuples of comparable components", "dataclass(eq=True) compares all fields"]
-    rep.floors = {"R11.1": 5, "R11.2": 1, "R11.3": 4, "R11.4": 8, "R11.5": 1}
+    rep.floors = {"R11.1": 5, "R11.2": 1, "R11.3": 5, "R11.4": 8, "R11.5": 1}
     classes = concrete_expression_classes(model)
     r11_1(model, rep, classes)
     r11_2(model, rep, classes)
     r11_3(model, rep)
+    r11_3_quotient(model, rep, classes)
     r11_4(model, rep, classes)
     r11_5(model, rep)
 
@@ -255,7 +259,7 @@ def r11_3(model: Model, rep: Report) -> None:
                                                         post=post, impl_self_type=CC)
     words = ("probabilities: children/parents each sorted by the position of the variable's name in the ordering, rebuilt through _new; sums: canonical "
              "summand, same ranges, re-simplified; products: nested products expanded before AND after canonicalising the factors, then Product.safe; "
-             "fractions: x/1 = x and a/a = 1 on the CANONICAL operands; One/Zero unchanged; anything else refused")
+             "fractions: x/1 = x and a/a = 1 on the CANONICAL operands and again on their quotient; One/Zero unchanged; anything else refused")
     for role in ("product-flat", "fraction-shortcuts", "sum-simplified"):
         cons = construct(canon, role)
         if verdict == "PROVEN":
@@ -272,6 +276,129 @@ def r11_3(model: Model, rep: Report) -> None:
     prods = [p.value for p in paths if p.value[0] == "rec" and p.value[1].endswith(".Product")]
     ok = bool(prods) and all(any(s[0] == "call" and s[1] == "sorted" for s in subterms(dict(v[2]).get("expressions"))) for v in prods)
     (rep.proven if ok else rep.refuted)("R11.3", construct(f, "sorted"), "" if ok else "Product.safe builds a Product without sorting its factors", loc(f))
+
+
+def _conj(conds):
+    for c in conds:
+        if c[0] == "and":
+            yield from _conj(c[1:])
+        else:
+            yield c
+
+
+def _not_one(conds, t: Term) -> bool:
+    return any(c[0] == "not" and c[1][0] == "isinstance" and c[1][1] == t and any(str(n).split(".")[-1] == "One" for n in (c[1][2] if isinstance(c[1][2], tuple) else ()))
+               for c in _conj(conds))
+
+
+def _differ(conds, a: Term, b: Term) -> bool:
+    for c in _conj(conds):
+        if c[0] == "ne" and {c[1], c[2]} == {a, b}:
+            return True
+        if c[0] == "not" and c[1][0] == "eq" and {c[1][1], c[1][2]} == {a, b}:
+            return True
+    return False
+
+
+def r11_3_quotient(model: Model, rep: Report, classes) -> None:
+    """canon(canon(e)) = canon(e) for fractions: what the Fraction branch returns must not be reducible by the branch's own shortcuts."""
+    canon = model.func(f"{CAN}.Canonicalizer.canonicalize")
+    cons = construct(canon, "quotient-closed")
+    ev = Evaluator(model, primitives=set(DSL_PRIMS), prim_methods={"_new", "__truediv__", "__mul__"})
+    slf = typed(ev, "self", ("cls", f"{CAN}.Canonicalizer"))
+    X = typed(ev, "expression", ("cls", f"{DSL}.Fraction"))
+    try:
+        paths = return_paths(ev.run(canon, {"expression": X}, self_term=slf))
+    except Exception as e:  # noqa: BLE001
+        rep.unknown("R11.3", cons, f"the Fraction branch could not be evaluated: {type(e).__name__}", loc(canon))
+        return
+    paths = [p for p in paths if not ev.infeasible(p.conds)]
+    quotients = []  # (path, q) for paths that hand back a division result as it is
+    for p in paths:
+        v = p.value
+        if v[0] == "op" and v[1] == "/" and len(v) == 4:
+            quotients.append((p, v))
+        elif v[0] == "meth" and v[2] == "__truediv__" and len(v[3]) == 1:
+            quotients.append((p, v))
+    if not quotients:
+        rep.proven("R11.3", cons, loc=loc(canon), nontrivial=False, sample={"note": "no path of the Fraction branch returns the result of a division as it is"})
+        return
+    unguarded = []
+    for p, q in quotients:
+        is_frac = ("isinstance", q, (f"{DSL}.Fraction",))
+        cs = list(_conj(p.conds))
+        not_fraction = any(c[0] == "not" and c[1][0] == "isinstance" and c[1][1] == q and any(str(n).split(".")[-1] == "Fraction" for n in c[1][2]) for c in cs)
+        qn, qd = ("attr", q, "numerator"), ("attr", q, "denominator")
+        if not_fraction or (_not_one(p.conds, qd) and _differ(p.conds, qn, qd)):
+            continue
+        unguarded.append((p, q))
+        del is_frac
+    if not unguarded:
+        rep.proven("R11.3", cons, loc=loc(canon), sample={"quotient-returning paths": len(quotients),
+                                                         "rule": "each is returned only when it is not a Fraction, or its denominator is not One() and its parts differ"})
+        return
+    # the quotient is returned unexamined: then the divisions themselves must only build irreducible fractions, given what the branch has
+    # established about the operands (divisor is not One(), dividend != divisor) and the invariant being proved (a canonical Fraction's
+    # denominator is not One())
+    problems, undecided, n_built = [], [], 0
+    seen = set()
+    for K in classes:
+        m = K.find_method("__truediv__")
+        if m is None or m.qname in seen:
+            continue
+        seen.add(m.qname)
+        ev2 = Evaluator(model, primitives=set(DSL_PRIMS), prim_methods={"__mul__", "_new"})
+        me = typed(ev2, "self", ("cls", m.cls.qname if m.cls is not None else K.qname))
+        other_name = m.params[1] if len(m.params) > 1 else "expression"
+        other = typed(ev2, other_name, ("cls", EXPR))
+        try:
+            ps = return_paths(ev2.run(m, {other_name: other}, self_term=me))
+        except Exception as e:  # noqa: BLE001
+            undecided.append(f"{m.qname}: {type(e).__name__}")
+            continue
+
+        def nonone(d, conds):
+            if d == other or _not_one(conds, d):
+                return True
+            if d[0] == "attr" and d[2] == "denominator" and d[1] in (me, other):
+                return True  # the invariant: a canonical fraction's denominator is not One()
+            if d[0] == "op" and d[1] == "*" and len(d) == 4:
+                return nonone(d[2], conds) or nonone(d[3], conds)
+            if d[0] == "meth" and d[2] in ("__mul__", "__rmul__") and len(d[3]) == 1:
+                return nonone(d[1], conds) or nonone(d[3][0], conds)
+            return False
+
+        for p in ps:
+            if ev2.infeasible(p.conds):
+                continue
+            if any(c[0] == "isinstance" and c[1] == other and any(str(n).split(".")[-1] == "One" for n in c[2]) for c in _conj(p.conds)):
+                continue  # the branch never divides by One()
+            v = p.value
+            if v in (me, other) or (v[0] == "attr" and v[1] in (me, other)):
+                continue
+            if v[0] in ("rec", "new") and str(v[1]).split(".")[-1] == "Fraction":
+                n_built += 1
+                fields = dict(v[2]) if v[0] == "rec" else dict(v[3])
+                args = list(v[2]) if v[0] == "new" else []
+                n_, d_ = fields.get("numerator", args[0] if args else None), fields.get("denominator", args[1] if len(args) > 1 else None)
+                if n_ is None or d_ is None:
+                    undecided.append(f"{m.qname}: Fraction built with unread arguments")
+                    continue
+                where = f"{m.qname.split(':')[-1] if ':' in m.qname else m.qname} (line {p.line}) builds Fraction({short(show(n_), 60)}, {short(show(d_), 60)})"
+                if not nonone(d_, p.conds):
+                    problems.append(where + ": the denominator can be One() -- a / (1/c) becomes Fraction(a*c, One()), which the next canonicalisation reduces to a*c")
+                elif not ((n_, d_) == (me, other) or _differ(p.conds, n_, d_)):
+                    problems.append(where + ": numerator and denominator can be equal (for instance a / (a*b / b) is built as Fraction(a*b, a*b)), which the next canonicalisation reduces to One()")
+            else:
+                undecided.append(f"{m.qname} (line {p.line}) returns {short(show(v), 80)}")
+    sample = {"unexamined quotient returned at": [loc(canon, p.line) for p, _ in unguarded], "fractions built by __truediv__": n_built}
+    if problems:
+        rep.refuted("R11.3", cons, "the Fraction branch returns `numerator / denominator` without re-applying its x/1 and a/a shortcuts to the quotient, and "
+                    + "; ".join(sorted(set(problems))[:3]) + " -- canonicalize(canonicalize(e)) != canonicalize(e)", loc(canon, unguarded[0][0].line), sample=sample)
+    elif undecided:
+        rep.unknown("R11.3", cons, "quotient returned unexamined and the division is not read: " + "; ".join(undecided[:3]), loc(canon))
+    else:
+        rep.proven("R11.3", cons, loc=loc(canon), sample=sample)
 
 
 def _product_safe_flattens(model: Model) -> bool:
